@@ -194,7 +194,7 @@ def run(ctx):
                 ctx.sample({'file': text[:400], 'fault': fault, 'alone': hplapi.exc_class(alone),
                             'file_outcome': hplapi.exc_class(o)})
             want = EXPECTED_CLASS[fault]
-            if fault == 'syntax' and hplapi.exc_class(alone) in ('TypeError', 'HplSanityError'):
+            if fault == 'syntax' and hplapi.exc_class(alone) in ('TypeError', 'HplSanityError', 'ValueError'):
                 # a type/sanity error in the well-formed prefix is raised before the parser reaches the bad token
                 want = hplapi.exc_class(alone)
             if hplapi.exc_class(alone) != want:
